@@ -23,7 +23,14 @@ Oracle (written from the property statement, independent of y0 and of the model;
       helpers: selection-node placement vs the independent rule, the diagram vs its set-theoretic definition, the
       line-6 separation test vs true m-separation (path enumeration), activation vs its meaning (the same terms read in
       the source domain under the intervention);
-  (R) the caller's graph / sets / dictionaries are unchanged by the call.
+  (e2) on every valid case: the selection DIAGRAM that surrogate_to_transport derives for every declared domain is the graph plus exactly
+      one parentless selection node T_v -> v for the v the independent rule marks;
+  (b') experiments declared, TRSO answers 'no estimand', ID returns an estimand: violated under either reading of the second sentence
+      (no experiment usable -> the verdict must be ID's; one usable -> using it is an estimand);
+  (R) the caller's graph / sets / dictionaries (contents and key order) are unchanged by the call.
+Every identify case is driven in an argument FORM that is a deterministic function of the case (harness/forms.py): insertion order of the
+domain keys, independently in the two dictionaries, and the public constructor / insertion order of the target graph.  The call runs
+inside `recursion_guard` (limit = depth + 250) so that an endless recursion is an outcome, not a check that does not finish.
 """
 from __future__ import annotations
 
@@ -40,6 +47,7 @@ import numpy as np
 
 from .. import common as C
 from .. import enc_expr as E
+from .. import forms as F
 from .. import gen_graph as G
 from ..oracles import family_eval as FE
 
@@ -53,7 +61,12 @@ RULE = ("random ADMGs with 2-6 nodes (isolated nodes, bidirected-only nodes, bow
         "ADMGs with W picked from different districts); plus relabelled/perturbed variants of the paper examples and of every past witness (nested "
         "c-component graphs that reach line 10 twice, line 10 inside a source domain, terms that contain only intervened "
         "variables); plus a malformed stream (overlapping X and Y, names outside the graph, mismatching domain keys); "
-        "plus direct calls of the helpers. A case is non-trivial when the graph has >=3 nodes and the run reaches one of "
+        "plus direct calls of the helpers; plus (mutation campaign D / generator review of round 5, appended after the streams above) TWO "
+        "domains that pass line 6 together (nested / equal / disjoint experiments inside X, either insertion order), THREE or FOUR domains "
+        "(one domain per outcome with |Y| = 3 in three districts; a bow with one usable domain of three; random), line 10 twice INSIDE a "
+        "source domain (every no-domain line-10 witness plus an experimental root X0 in X and a domain with Z = {X0}), 6-7 node graphs with "
+        "|X|, |Y| up to 4, activation of fractions nested in fractions / sums / products, the other key mismatches of the two dictionaries; "
+        "every identify case in an argument form derived from the case (key insertion orders, graph constructor). A case is non-trivial when the graph has >=3 nodes and the run reaches one of "
         "lines 4, 6, 9, 10 (recorded from the algorithm's own debug log).")
 ASSUMPTIONS = [
     "trso_sound (first sentence of the property) is PROVED at full strength for the Lean model (Props/C05 trso_sound: every "
@@ -128,6 +141,14 @@ CORPUS = [
          [0, 4], [2, 5], [[[0], [2, 3, 4]]]),                                      # activation dropped the conditioning set
     _idc({"nodes": [], "di": [[4, 1], [4, 5], [0, 4], [2, 5], [3, 5], [0, 5], [0, 3], [1, 2]],
           "bi": [[4, 2], [4, 3], [5, 2], [3, 0], [1, 4], [5, 0]]}, [0, 1, 3], [2, 4], [[[1], [2, 3, 5]]]),  # Sum over a selection node
+    # campaign D (mutant c10): a domain passes the line-6 separation test but yields no estimand, then line 10 in the TARGET domain; the
+    # recursion below line 10 must not enter line 6 again (the carried c-factor is not the domain's experimental distribution)
+    _idc({"nodes": [], "di": [[1, 2], [0, 3], [4, 3], [4, 2], [2, 3], [1, 0], [4, 0], [1, 3], [0, 2]], "bi": [[1, 3], [0, 1], [3, 4]]},
+         [0, 1, 2], [3, 4], [[[0, 2], [0, 2, 3, 4]], [[3, 4], [1, 3]]]),
+    # gap review round 5 (C05-G1): line 10 TWICE inside a source domain (the carried c-factor branch of line 10 and the pillow test on
+    # the second line 10 while query.domain is a source domain): _NEST plus an experimental root X0=5 -> M, X = {X0, E, M}, Z = {X0}
+    _idc({"nodes": [], "di": _NEST["di"] + [[5, 3]], "bi": _NEST["bi"]}, [2, 3, 5], [4], [[[5], [4]]]),
+    _idc({"nodes": [], "di": _NEST["di"] + [[5, 4]], "bi": _NEST["bi"]}, [2, 3, 5], [4], [[[5], [0, 1, 2, 3, 4]]]),
     # malformed
     _idc(_NAPKIN, [2], [2, 3], [], malformed="overlap"),
     _idc(_NAPKIN, [2], [3, 90], [], malformed="outside"),
@@ -284,9 +305,182 @@ def _spread_random(rng):
     return _idc(g, X, Y, doms, seed=rng.randrange(1 << 30), stream="spread_random")
 
 
+_TWO_DOMAIN_SEEDS = [
+    # chain A -> B -> C with A <-> C ; P*(C | do(B)) ; pi1 experiments on A, pi2 on A and B   (A=0 B=1 C=2 D=3)
+    {"g": {"nodes": [], "di": [[0, 1], [1, 2]], "bi": [[0, 2]]}, "X": [1], "Y": [2], "domains": [[[0], [1, 2]], [[0, 1], [2]]]},
+    {"g": {"nodes": [], "di": [[0, 2], [1, 0], [1, 2]], "bi": []}, "X": [1], "Y": [2], "domains": [[[0], [1, 2]], [[0, 1], [2]]]},
+    {"g": {"nodes": [], "di": [[0, 1], [3, 1]], "bi": [[0, 1]]}, "X": [0, 3], "Y": [1], "domains": [[[0], [1]], [[0, 3], [1]]]},
+    {"g": {"nodes": [], "di": [[0, 1], [1, 2], [3, 2]], "bi": [[0, 2]]}, "X": [1, 3], "Y": [2], "domains": [[[1], [2]], [[1, 3], [2]]]},
+]
+
+
+def _two_domain_case(rng):
+    """structured stream (campaign D): TWO source domains whose experiments both meet the target interventions, surrogate outcomes
+    generous (few selection nodes), so that SEVERAL domains pass line 6 of one call and each yields an estimand (`more than one
+    expression were non-none`).  Three shapes: (a) nested experiments Z1 < Z2 sharing a variable of X, (b) the same experiment
+    declared twice with different surrogate outcomes, (c) disjoint experiments on different variables of X (the shape on which a
+    second, nested use of line 6 would be possible); either insertion order"""
+    if rng.random() < 0.12:
+        s = rng.choice(_TWO_DOMAIN_SEEDS)
+        doms = [list(d) for d in s["domains"]]
+        if rng.random() < 0.5:
+            doms.reverse()
+        return _idc(s["g"], list(s["X"]), list(s["Y"]), doms, seed=rng.randrange(1 << 30), stream="two_domain")
+    while True:
+        g = G.rand_graph(rng, 3, 5, acyclic=True, pd=rng.choice([0.4, 0.6, 0.8]), pb=rng.choice([0.0, 0.15, 0.3]))
+        nodes = G.all_nodes(g)
+        if len(nodes) < 3:
+            continue
+        perm = nodes[:]
+        rng.shuffle(perm)
+        nx_ = rng.randint(1, min(3, len(nodes) - 1))
+        ny = rng.randint(1, min(2, len(nodes) - nx_))
+        X, Y = perm[:nx_], perm[nx_:nx_ + ny]
+        a = rng.choice(X)
+        shape = rng.random()
+        if shape < 0.5:           # (a) nested
+            pool = [v for v in nodes if v != a and v not in Y]
+            if not pool:
+                continue
+            pref = [v for v in pool if v in X] or pool
+            extra = {rng.choice(pref if rng.random() < 0.6 else pool)}
+            z1, z2 = sorted({a}), sorted({a} | extra)
+        elif shape < 0.7:         # (b) the same experiment twice
+            z1 = z2 = sorted({a} | ({rng.choice(X)} if rng.random() < 0.3 else set()))
+        else:                     # (c) disjoint experiments inside X
+            if len(X) < 2:
+                continue
+            b = rng.choice([v for v in X if v != a])
+            z1, z2 = [a], [b]
+
+        def outcomes(Z):
+            r = rng.random()
+            if r < 0.5:
+                return sorted(set(nodes) - set(Z))
+            if r < 0.8:
+                return sorted(set(Y) | {v for v in nodes if v not in Z and rng.random() < 0.5})
+            return sorted(Y)
+        doms = [[z1, outcomes(z1)], [z2, outcomes(z2)]]
+        if rng.random() < 0.5:
+            doms.reverse()
+        return _idc(g, sorted(X), sorted(Y), doms, seed=rng.randrange(1 << 30), stream="two_domain")
+
+
+def _nested_source_case(rng):
+    """structured stream (gap review C05-G1): a no-domain witness that reaches line 10 (twice for _NEST) gets a fresh experimental
+    root X0 with an edge into a random non-X node, X0 joins X, and ONE source domain declares Z = {X0} with generous surrogate
+    outcomes: line 6 is taken first and lines 10 / 10 / 9 then run inside the source domain on a carried c-factor"""
+    base = rng.choice([c for c in CORPUS if not c["domains"] and "malformed" not in c and c["g"] is not _NAPKIN] + [CORPUS[3]])
+    g = base["g"]
+    nodes = sorted(G.all_nodes(g))
+    x0 = max(nodes) + 1
+    X, Y = list(base["X"]), list(base["Y"])
+    tgt = rng.choice([v for v in nodes if v not in X] or nodes)
+    di = [list(e) for e in g["di"]] + [[x0, tgt]]
+    if rng.random() < 0.25:
+        di.append([x0, rng.choice([v for v in nodes if v != tgt])])
+    V = nodes + [x0]
+    r = rng.random()
+    W = sorted(Y) if r < 0.4 else sorted(set(V) - {x0}) if r < 0.75 else sorted(set(Y) | {v for v in nodes if rng.random() < 0.5})
+    Z = [x0] + ([rng.choice(X)] if rng.random() < 0.2 else [])
+    c = _idc({"nodes": [], "di": di, "bi": [list(e) for e in g["bi"]]}, sorted(set(X) | {x0}), Y, [[sorted(set(Z)), W]],
+             seed=rng.randrange(1 << 30))
+    c = _perturb(rng, c, nmax=len(V)) if rng.random() < 0.7 else c     # relabel (no extra node: n stays <= 7)
+    c["stream"] = "nested_source"
+    return c
+
+
+def _multi_domain_case(rng):
+    """structured stream (gap review C05-G2 / G3): THREE or FOUR source domains; (a) one domain per outcome: k bows X_i -> Y_i,
+    X_i <-> Y_i (k = 3, sometimes a common cause / an edge between the blocks), X = all X_i, Y = all Y_i (|Y| = 3, three
+    districts), domain i with Z = {X_i}, W = {Y_i}, sometimes one domain unusable / duplicated / with W = everything;
+    (b) a bow X -> Y with three domains of which only one is usable; (c) random ADMG with 3-4 random domains"""
+    r = rng.random()
+    if r < 0.35:
+        k = 3
+        names = rng.sample(range(2 * k + rng.choice([0, 1])), 2 * k)
+        xs, ys = names[:k], names[k:]
+        di = [[x, y] for x, y in zip(xs, ys)]
+        bi = [[x, y] for x, y in zip(xs, ys) if rng.random() < 0.8]
+        if rng.random() < 0.3:
+            di.append([ys[0], ys[1]])
+        if rng.random() < 0.2:
+            di.append([xs[0], xs[1]])
+        doms = [[[x], [y]] for x, y in zip(xs, ys)]
+        q = rng.random()
+        if q < 0.2:
+            doms[rng.randrange(k)] = [[], [rng.choice(ys)]]
+        elif q < 0.35:
+            doms.append(list(doms[0]))
+        elif q < 0.5:
+            j = rng.randrange(k)
+            doms[j] = [doms[j][0], sorted(set(xs + ys) - set(doms[j][0]))]
+        rng.shuffle(doms)
+        X, Y = list(xs), list(ys)
+        if rng.random() < 0.2:
+            Y = Y[:2]
+        return _idc({"nodes": [], "di": di, "bi": bi}, sorted(X), sorted(Y), doms, seed=rng.randrange(1 << 30), stream="multi_domain")
+    if r < 0.5:
+        x, y = rng.sample(range(3), 2)
+        doms = [[[], [y]], [[y], [x]], [[x], [y]]]
+        rng.shuffle(doms)
+        return _idc({"nodes": [], "di": [[x, y]], "bi": [[x, y]]}, [x], [y], doms, seed=rng.randrange(1 << 30), stream="multi_domain")
+    c = _rand_identify(rng, 5)
+    nodes = G.all_nodes(c["g"])
+    while len(c["domains"]) < rng.choice([3, 3, 4]):
+        Z = [v for v in c["X"] if rng.random() < 0.6] + [v for v in nodes if v not in c["X"] and rng.random() < 0.1]
+        W = [v for v in c["Y"] if rng.random() < 0.8] + [v for v in nodes if v not in c["Y"] and rng.random() < 0.4]
+        c["domains"].append([sorted(set(Z)), sorted(set(W))])
+    c["stream"] = "multi_domain"
+    return c
+
+
+def _big_query_case(rng):
+    """structured stream (gap review C05-G3): 6-7 nodes, |X| up to 4, |Y| up to 4 (binary variables only), 0-2 domains"""
+    while True:
+        g = G.rand_graph(rng, 6, 7, acyclic=True, pd=rng.choice([0.25, 0.35]), pb=rng.choice([0.1, 0.2]))
+        nodes = G.all_nodes(g)
+        if 6 <= len(nodes) <= 7 and len(g["bi"]) <= 6:
+            break
+    perm = nodes[:]
+    rng.shuffle(perm)
+    nx_ = rng.choice([1, 2, 3, 4, 4])
+    ny = rng.choice([1, 2, 3, 3, 4])
+    ny = min(ny, len(nodes) - nx_)
+    X, Y = perm[:nx_], perm[nx_:nx_ + ny]
+    doms = []
+    for _ in range(rng.choice([0, 1, 1, 2])):
+        Z = [v for v in X if rng.random() < 0.6]
+        W = [v for v in Y if rng.random() < 0.8] + [v for v in nodes if v not in Y and rng.random() < 0.4]
+        doms.append([sorted(set(Z)), sorted(set(W))])
+    return _idc(g, sorted(X), sorted(Y), doms, seed=rng.randrange(1 << 30), stream="big_query")
+
+
+def _nested_frac_expr(rng, nodes):
+    """activation of a Fraction nested in a Fraction / Sum / Product (gap review C05-G1 d)"""
+    leaf = lambda: _rand_expr(rng, nodes, depth=2)  # noqa: E731
+    fr = lambda a, b: ["frac", a, b]                  # noqa: E731
+    k = rng.randrange(5)
+    if k == 0:
+        return fr(fr(leaf(), leaf()), leaf())
+    if k == 1:
+        return fr(leaf(), fr(leaf(), leaf()))
+    if k == 2:
+        return fr(fr(leaf(), leaf()), fr(leaf(), leaf()))
+    inner = fr(leaf(), leaf())
+    if k == 3:
+        pool = sorted(FE.free_names(inner)) or sorted(nodes)
+        return fr(["sum", [E.plain(rng.choice(pool))], inner], leaf())
+    return ["prod", fr(leaf(), leaf()), fr(fr(leaf(), leaf()), leaf())]
+
+
 def _rand_malformed(rng):
     c = _rand_identify(rng, 5)
     kind = rng.choice(["overlap", "outside", "keys", "outside_dom"])
+    return _malform(rng, c, kind)
+
+
+def _malform(rng, c, kind):
     nodes = G.all_nodes(c["g"])
     if kind == "overlap":
         c["Y"] = c["Y"] + [c["X"][0]]
@@ -296,6 +490,11 @@ def _rand_malformed(rng):
         if not c["domains"]:
             c["domains"] = [[[nodes[0]], []]]
         c["domains"][0][rng.randrange(2)].append(92)
+    elif kind == "outside_dom_any":
+        c["domains"] = c["domains"] or [[[nodes[0]], []]]
+        c["domains"][rng.randrange(len(c["domains"]))][rng.randrange(2)].append(92)
+    elif kind in ("keys_extra", "keys_renamed"):     # gap review C05-G5: the other ways in which the two dictionaries can mismatch
+        c["domains"] = c["domains"] or [[[nodes[0]], [nodes[-1]]]]
     else:
         c["domains"] = c["domains"] or [[[nodes[0]], [nodes[-1]]]]
     c["malformed"] = kind
@@ -385,6 +584,29 @@ def cases(rng: random.Random, tier: str):
                 c["pop"] = rng.choice([TARGET + 1, TARGET + 2])
                 c["eval_seed"] = rng.randrange(1 << 30)
         out.append(c)
+    # streams added by mutation campaign D are appended, so that the streams above stay the cases they were
+    n_two = {"quick": 500, "escalated": 1200}.get(tier, 4000)
+    for _ in range(n_two):
+        out.append(_two_domain_case(rng))
+    # streams added after the generator review of round 5 (three or more domains, line 10 twice inside a source domain, large queries,
+    # nested fractions in the activation, the other key mismatches)
+    n_multi, n_nest, n_big, n_frac, n_keys = {"quick": (350, 250, 60, 120, 40), "escalated": (900, 600, 150, 300, 80)}.get(
+        tier, (3000, 2500, 600, 1500, 300))
+    for _ in range(n_multi):
+        out.append(_multi_domain_case(rng))
+    for _ in range(n_nest):
+        out.append(_nested_source_case(rng))
+    for _ in range(n_big):
+        out.append(_big_query_case(rng))
+    for _ in range(n_frac):
+        g = G.rand_graph(rng, 2, 5, acyclic=True)
+        nodes = G.all_nodes(g)
+        if len(nodes) < 2:
+            continue
+        out.append({"kind": "activate", "g": g, "e": _nested_frac_expr(rng, nodes), "Z": sorted(rng.sample(nodes, rng.randint(1, 2))),
+                    "pop": rng.choice([TARGET + 1, TARGET + 2]), "eval_seed": rng.randrange(1 << 30)})
+    for _ in range(n_keys):
+        out.append(_malform(rng, _rand_identify(rng, 5), rng.choice(["keys_extra", "keys_renamed", "outside_dom_any"])))
     return out
 
 
@@ -420,6 +642,28 @@ def _line_log():
         lg.propagate = False
     _LOG.lines = []
     return _LOG
+
+
+class recursion_guard:
+    """TRSO on a graph with <= 7 nodes nests a few dozen frames (trso -> line helper -> deepcopy / canonicalize); a change that makes the
+    recursion endless would otherwise spend seconds per case climbing to the interpreter's default limit (and the whole check
+    would not finish).  Inside the guard the limit is the current depth + `extra`; a RecursionError is reported like any other
+    exception on valid input.  The evidence tag `exception: RecursionError` shows whether the guard ever fired."""
+
+    def __init__(self, extra=250):
+        self.extra = extra
+
+    def __enter__(self):
+        f, n = sys._getframe(), 0
+        while f is not None:
+            n += 1
+            f = f.f_back
+        self.old = sys.getrecursionlimit()
+        sys.setrecursionlimit(max(n + self.extra, 200))
+
+    def __exit__(self, *a):
+        sys.setrecursionlimit(self.old)
+        return False
 
 
 def _pop(i):
@@ -486,32 +730,85 @@ def _classify_exception(e):
     return "internal"
 
 
+FORM_SLOTS = {
+    "sets": ("set",),                                         # X, Y and the dictionary values: the signature says set[Variable]; a frozenset
+                                                              # is outside it (trso_line2 / line3 update the sets of a deepcopy in place:
+                                                              # AttributeError), so it is not driven as a legal form
+    "so_order": ("asc", "asc", "desc", "rot"),                # insertion order of the domain keys in surrogate_outcomes ...
+    "si_order": ("asc", "asc", "desc", "rot"),                # ... and, independently, in surrogate_interventions
+    "graph": ("default", "default") + tuple(F.CTORS),         # public constructor / insertion order of the target graph
+}
+
+
+def _forms(case):
+    return F.forms_of(case, FORM_SLOTS)
+
+
+def _ordered(keys, how):
+    keys = list(keys)
+    if how == "desc":
+        return keys[::-1]
+    if how == "rot" and len(keys) > 1:
+        return keys[1:] + keys[:1]
+    return keys
+
+
+def build_call(case):
+    """the arguments of identify_target_outcomes in the argument FORM of the case (harness/forms.py: a deterministic function of the
+    case): (graph, X, Y, surrogate_outcomes, surrogate_interventions, forms)"""
+    g = case["g"]
+    fm = _forms(case)
+    graph = _graph_of(g)
+    if fm["graph"] != "default":
+        try:
+            alt = F.build_graph({"nodes": G.all_nodes(g), "di": g["di"], "bi": g["bi"]}, fm["graph"], seed=F.crc(F.case_key(case)))
+            if _snapshot(alt) == _snapshot(graph):       # a constructor that does not reproduce the graph is C14's business
+                graph = alt
+            else:
+                fm = dict(fm, graph="default")
+        except Exception:  # noqa: BLE001
+            fm = dict(fm, graph="default")
+    V = G.V
+    mk = frozenset if fm["sets"] == "frozenset" else set
+    doms = case["domains"]
+    ks = list(range(len(doms)))
+    so = {_pop(TARGET + 1 + k): mk(V(w) for w in doms[k][1]) for k in _ordered(ks, fm["so_order"])}
+    si = {_pop(TARGET + 1 + k): mk(V(z) for z in doms[k][0]) for k in _ordered(ks, fm["si_order"])}
+    mal = case.get("malformed")
+    if mal == "keys":
+        si.pop(_pop(TARGET + len(doms)), None)            # the last domain has no experiment entry
+    elif mal == "keys_extra":
+        si[_pop(TARGET + 1 + len(doms))] = mk()           # an experiment entry for a domain without outcomes
+    elif mal == "keys_renamed":
+        si[_pop(TARGET + 1 + len(doms))] = si.pop(_pop(TARGET + len(doms)))   # same size, one key differs
+    X, Y = mk(V(x) for x in case["X"]), mk(V(y) for y in case["Y"])
+    return graph, X, Y, so, si, fm
+
+
 def _run_identify(case):
     from y0.algorithm.identify import identify_outcomes
     from y0.algorithm.transport import identify_target_outcomes
 
     g = case["g"]
-    graph = _graph_of(g)
     V = G.V
     doms = case["domains"]
-    so = {_pop(TARGET + 1 + k): {V(w) for w in W} for k, (Z, W) in enumerate(doms)}
-    si = {_pop(TARGET + 1 + k): {V(z) for z in Z} for k, (Z, W) in enumerate(doms)}
-    if case.get("malformed") == "keys":
-        si = dict(list(si.items())[:-1])
-    X, Y = {V(x) for x in case["X"]}, {V(y) for y in case["Y"]}
-    before = (_snapshot(graph), set(X), set(Y), {k: set(v) for k, v in so.items()}, {k: set(v) for k, v in si.items()})
+    graph, X, Y, so, si, fm = build_call(case)
+    before = (_snapshot(graph), set(X), set(Y), [(k, set(v)) for k, v in so.items()], [(k, set(v)) for k, v in si.items()])
     log = _line_log()
     valid = _valid_identify(case)
     fail = None
     tags = {"kind": "identify", "n_nodes": len(G.all_nodes(g)), "n_domains": len(doms), "valid_input": valid,
-            "stream": case.get("stream", "random")}
+            "stream": case.get("stream", "random"), "n_X": len(case["X"]), "n_Y": len(case["Y"])}
+    tags.update(F.tags(fm))
     try:
-        r = identify_target_outcomes(graph, target_outcomes=Y, target_interventions=X, surrogate_outcomes=so,
-                                     surrogate_interventions=si)
+        with recursion_guard():
+            r = identify_target_outcomes(graph, target_outcomes=Y, target_interventions=X, surrogate_outcomes=so,
+                                         surrogate_interventions=si)
     except RecursionError:
         r = None
         out = ["err", "internal"]
-        fail = "RecursionError" if valid else None
+        fail = ("raised RecursionError (endless recursion: more than 250 nested frames on a graph with "
+                f"{len(G.all_nodes(g))} nodes) on an input inside the quantifier (only 'no estimand' is allowed)") if valid else None
         tags["exception"] = "RecursionError"
     except Exception as e:  # noqa: BLE001
         cat = _classify_exception(e)
@@ -530,7 +827,7 @@ def _run_identify(case):
     tags["lines"] = ",".join(map(str, lines))
     for ln in lines:
         tags[f"line{ln}"] = True
-    after = (_snapshot(graph), X, Y, so, si)
+    after = (_snapshot(graph), set(X), set(Y), [(k, set(v)) for k, v in so.items()], [(k, set(v)) for k, v in si.items()])
     if fail is None and before != after:
         fail = "the caller's graph / sets / dictionaries were modified by identify_target_outcomes"
     nontrivial = len(G.all_nodes(g)) >= 3 and bool(set(lines) & {4, 6, 9, 10})
@@ -574,6 +871,12 @@ def _run_identify(case):
                         f"(De(Z)-W) u (C(W)-An(W) in G[bar Z]) gives {sorted(exp)}")
                 tags["nodes_rule_violated"] = True
                 break
+    # (e2) the selection diagram the call derives for every declared domain = the graph plus one parentless selection node T_v -> v
+    #      for exactly the variables the rule marks (get_nodes_to_transport alone is compared above; here: what is done with it)
+    if valid and fail is None and doms:
+        fail = _diagrams_fail(case, graph, X, Y, so, si)
+        if fail:
+            tags["diagram_rule_violated"] = True
     # (b) no usable surrogate experiment: verdict must be ID's
     if valid and fail is None and all(not Z for Z, _ in doms):
         tags["no_surrogate"] = True
@@ -584,7 +887,51 @@ def _run_identify(case):
         if idr != "?" and (idr is None) != (out[0] == "none"):
             fail = (f"no surrogate experiment is usable, but TRSO returned {'no estimand' if out[0] == 'none' else 'an estimand'} "
                     f"while ID returned {'no estimand' if idr is None else str(idr)[:200]}")
+    # (b') 'no estimand' although ID returns one.  From the second sentence of the property: either no declared experiment is usable -
+    #      then the verdict must be ID's - or one is usable, and using it IS returning an estimand; in both readings 'no estimand'
+    #      where ID has an estimand contradicts the statement (TRSO contains ID's lines 1-7 as its lines 1-4, 8-11)
+    if valid and fail is None and out[0] == "none" and any(Z for Z, _ in doms):
+        try:
+            idr = identify_outcomes(graph, treatments=X, outcomes=Y)
+        except Exception:  # ID's own crash is not C05's business
+            idr = None
+        if idr is not None:
+            tags["none_but_id_identifies"] = True
+            fail = ("TRSO returned no estimand although ID returns " + str(idr)[:200] + ": if no declared experiment is usable the "
+                    "verdict must be ID's, and a usable one yields an estimand")
     return {"out": out, "fail": fail, "nontrivial": nontrivial, "tags": tags}
+
+
+def _diagrams_fail(case, graph, X, Y, so, si):
+    from y0.algorithm import transport as T
+    stt = getattr(T, "surrogate_to_transport", None)
+    if stt is None:
+        return None
+    g = case["g"]
+    nodes = G.all_nodes(g)
+    try:
+        tq = stt(graph=graph, target_outcomes=set(Y), target_interventions=set(X), surrogate_outcomes=so, surrogate_interventions=si)
+        graphs = tq.graphs
+    except Exception as e:  # noqa: BLE001
+        return f"surrogate_to_transport raised {type(e).__name__} on an input inside the quantifier"
+    for k, (Z, W) in enumerate(case["domains"]):
+        dg = graphs.get(_pop(TARGET + 1 + k))
+        if dg is None:
+            return f"no selection diagram was derived for domain {k + 1}"
+        try:
+            got = C.canon_graph(["graph", [str(G.vint(n)) for n in dg.nodes()],
+                                 [[str(G.vint(u)), str(G.vint(v))] for u, v in dg.directed.edges()],
+                                 [[str(G.vint(u)), str(G.vint(v))] for u, v in dg.undirected.edges()]])
+        except Exception as e:  # noqa: BLE001
+            return f"selection diagram of domain {k + 1} has a node that is neither a variable nor a selection node ({type(e).__name__})"
+        S = sorted(FE.nodes_may_differ(g, Z, W))
+        exp = C.canon_graph(["graph", [str(v) for v in nodes] + [str(200 + s) for s in S],
+                             [[str(u), str(v)] for u, v in g["di"]] + [[str(200 + s), str(s)] for s in S],
+                             [[str(u), str(v)] for u, v in g["bi"]]])
+        if got != exp:
+            return (f"selection diagram derived for domain {k + 1} (Z={sorted(Z)}, W={sorted(W)}) is not the graph plus one parentless "
+                    f"selection node T_v -> v for v in {S} (the rule (De(Z)-W) u (C(W)-An(W) in G[bar Z])): got {json.dumps(got)[:300]}")
+    return None
 
 
 # ---- helpers -------------------------------------------------------------------------------------------------------
@@ -764,6 +1111,10 @@ def request(case):
         si = [[TARGET + 1 + i, Z] for i, (Z, W) in enumerate(case["domains"])]
         if case.get("malformed") == "keys":
             si = si[:-1]
+        elif case.get("malformed") == "keys_extra":
+            si = si + [[TARGET + 1 + len(si), []]]
+        elif case.get("malformed") == "keys_renamed":
+            si = si[:-1] + [[TARGET + 1 + len(si), si[-1][1]]]
         return C.enc(["transport", "identify", gs, case["Y"], case["X"], so, si])
     if k == "nodes_to_transport":
         return C.enc(["transport", k, gs, case["Z"], case["W"]])
